@@ -124,8 +124,9 @@ func vpH_C09_frame() {
 	k := vpChoice("op", len(vpReadOpNames))
 	vpNote("op:" + vpReadOpNames[k])
 	if vpSymbolic() {
-		solo := vpReadOp(k, seg)
+		// both the first (cold) and the repeated execution are tracked
 		vpWriteSetBegin([]interface{}{seg})
+		solo := vpReadOp(k, seg)
 		again := vpReadOp(k, seg)
 		writes := vpWriteSetEnd()
 		vpAssert(bytes.Equal(solo, again), "repeated read observes the same")
@@ -137,7 +138,10 @@ func vpH_C09_frame() {
 		}
 	} else {
 		k2 := k // the same operation in two goroutines
-		solo1, solo2 := vpReadOp(k, seg), vpReadOp(k2, seg)
+		// the solo reference comes from an identical second segment, so that the
+		// two goroutines meet the segment under test in the chosen (cold) state
+		ref := vpLoad(vpPersist(seg))
+		solo1, solo2 := vpReadOp(k, ref), vpReadOp(k2, ref)
 		var wg sync.WaitGroup
 		var r1, r2 []byte
 		wg.Add(2)
